@@ -331,6 +331,7 @@ class Evaluator(object):
         self.steps = 0
         self.asserts = []  # AssertRec
         self.calls = []  # (caller key, callee path, span) of opaque calls
+        self.loop_intervals = True  # loop summaries carry interval invariants (needed to discharge asserts, not to compare effects)
         self.neutral_crates = set()  # crates whose opaque calls do not advance the world token (see C18)
         self.local_names = {}  # oid of a frame local -> (function def path, source variable name or None)
         self.overrides = {}  # def path or key -> handler(ev, st, callee, args, argops, dest_ty) -> value
